@@ -13,7 +13,7 @@ ISOLATE = True          # a panic inside the crate's extern "C" functions aborts
 TIMEOUT_MS = 30000
 LEVEL = "proof"
 SHRINK_KEY = "ops"
-SHARD_SIZE = 40
+SHARD_SIZE = 11
 RULE = ("1-5 calls per case drawn from a boundary grid per call (0, 1, 999 us, 1 ms, 16 ms, 1 s, u32::MAX, "
         "i64::MAX, negative fields, tv_nsec = 10^9, slice boundaries 15/16/17/31/32 ms) crossed with start "
         "clocks (0, epoch-like, 2^63, just below u64::MAX) and random values; huge requests are paired with a "
@@ -113,7 +113,7 @@ def gen_call(rng):
 
 
 def gen(rng, tier):
-    n = {"quick": 160, "thorough": 2000, "search": 500}[tier]
+    n = {"quick": 120, "thorough": 2000, "search": 500}[tier]
     cases = []
     for _ in range(n):
         cases.append({"ops": [gen_call(rng) for _ in range(rng.randint(1, 5))]})
@@ -155,7 +155,12 @@ def _ev(e):
 def _obs(v):
     if isinstance(v, dict) and "end" in v:
         e = v["errno"] if int(v["ret"]) == -1 else 0
-        return "OCall %s %s %s %s" % (gz(v["ret"]), gz(e), gz(v["end"]), glist([_ev(x) for x in v["ev"]]))
+        evs = v["ev"]
+        if v.get("n", 0) > 4 * MAXEV or len(evs) > 4 * MAXEV:
+            # far more waits than any generated request needs: keep the term small; the marker matches
+            # no model event, the oracle still judges return value and final clock
+            evs = [[0, "-2", 1]]
+        return "OCall %s %s %s %s" % (gz(v["ret"]), gz(e), gz(v["end"]), glist([_ev(x) for x in evs]))
     if isinstance(v, str) and v.startswith(("aborted", "exited")):
         return "OAbort"
     return "ODiverged"
